@@ -46,3 +46,8 @@ def run(ctx, crate):
     D.rule_render_unless_hidden(ctx, crate)
     # "with no remnant of any earlier frame": the rows erased next time are those of the text that was written
     D.rule_painted_is_measured(ctx, crate)
+    # .. and is as wide as it is measured: no raw TAB reaches a bar line (a tab measures 0 columns and paints up to 8). The one
+    # writer that user-supplied output goes through rewrites tabs on every entry point (seed C01n: a `write_char` override that
+    # forwards the character)
+    from .c16 import rule_tabrewriter
+    rule_tabrewriter(ctx, crate)
